@@ -305,6 +305,22 @@ theorem ptr_insert_existing (kind : Kind) (h : Nat → Nat) (pt : PTable) (t : T
   rw [hr.find hi k, (hi.find_some_iff k id).2 ⟨hid, hk⟩]
 
 open Ptr in
+/-- in every reachable pointer-level table iterating backwards (`--it` from `end()` along `prev`) visits exactly the
+    forward order reversed, and both traversals end within `size` steps -/
+theorem ptr_backward_iteration (kind : Kind) (h : Nat → Nat) (ops : List Op) (ps' : PState) (outs : List Out)
+    (hr : prun kind h pinit ops = some (ps', outs)) (t : Bool) :
+    ∃ l, (ps'.get t).order = some l ∧ (ps'.get t).orderBack = some l.reverse := by
+  have h1 := ptr_simulated kind h ops pinit init pinit_rel (init_inv h)
+  rw [hr] at h1
+  cases hrun : run kind h init ops with
+  | none => rw [hrun] at h1; exact False.elim h1
+  | some r =>
+    rw [hrun] at h1
+    obtain ⟨s', os'⟩ := r
+    simp only at h1
+    exact ⟨_, (h1.2.1.get t).1.order_eq (h1.2.2.get t), (h1.2.1.get t).1.orderBack_eq (h1.2.2.get t)⟩
+
+open Ptr in
 /-- structure of every reachable pointer-level table: there are id lists (`chain b`, `order`, `free`) such that every bucket
     chain is a `nextCell` list whose `cell` back-pointers designate the referring cells, holds exactly the live items whose
     key hashes to the bucket, each once; the `next`/`prev` list is closed by the table's own sentinel; iteration along `next`
